@@ -64,7 +64,7 @@ KINDS_HYPER = KINDS + ("posvar", "posvar")
 
 @st.composite
 def s_net(draw, tier="quick", hyper=False, phys="none", uniform=False, min_n=2, max_n=9, kinds=KINDS, groups=False,
-          forest=True, exponents=(0.0, 0.0, 0.0, 0.0, 1.5, -2.0)):
+          forest=True, exponents=(0.0, 0.0, 0.0, 0.0, 1.5, -2.0), own_labels=3):
     """JSON description of an acyclic network.
 
     attach[i-1] = [code, target, dim] for tensor i >= 1:
@@ -91,7 +91,11 @@ def s_net(draw, tier="quick", hyper=False, phys="none", uniform=False, min_n=2, 
     if hyper:
         # dangle[i] > 0: tensor i also carries a label d<i> that sits on no other tensor (a rank-1 hyper edge / leaf
         # variable of the factor graph, as in the k-SAT networks of quimb's own tests): the hyper flavours sum over it
-        net["dangle"] = [draw(st.sampled_from([0, 0, 0, 2, 3, 4])) for _ in range(n)]
+        # (in own_labels/6 of the cases, so that plain hyper trees stay well represented)
+        if draw(st.integers(0, 5)) < own_labels:
+            net["dangle"] = [draw(st.sampled_from([0, 0, 0, 2, 3, 4])) for _ in range(n)]
+        else:
+            net["dangle"] = [0] * n
     return net
 
 
@@ -578,7 +582,9 @@ def run_contract2(flavour):
 @st.composite
 def s_marg1(draw, tier):
     flavour = draw(st.sampled_from(["hd1", "hd1", "hv1", "d1"]))
-    net = draw(s_net(tier, hyper=flavour != "d1", uniform=flavour == "hv1", min_n=2,
+    # own labels in 1/3 of the cases only: while finding C14-n is open every such case ends in its known crash (after all
+    # index marginals and all other tensor marginals have been compared) and counts as swallowed, not as accepted
+    net = draw(s_net(tier, hyper=flavour != "d1", uniform=flavour == "hv1", min_n=2, own_labels=2,
                      kinds=KINDS_HYPER if flavour != "d1" else KINDS))
     return {"flavour": flavour, "net": net, "opts": draw(s_opts(flavour)),
             "route": draw(st.sampled_from(["object", "function"]))}
